@@ -1,12 +1,14 @@
 """C03 - rule expressions are confined: no code execution, I/O or introspection.
 
-Exhaustive over three corpora of expression STRINGS:
+Exhaustive over four corpora of expression STRINGS:
   node     one or more smallest instances of every Python expression node class / operator / call shape /
            literal kind, at top level and nested inside every construct the language allows;
   closure  15 receivers (one per kind of value the language can build) x EVERY attribute name in dir() of
            str, dict, list, set, tuple, float, int, bool, date, NoneType, generator, builtin function,
            function, type, code, frame (enumerated at run time) x 6 access shapes;
-  payload  classic sandbox-escape payloads and all ordered pairs of splices of one into another.
+  payload  classic sandbox-escape payloads and all ordered pairs of splices of one into another;
+  functions every public name of builtins and of 13 standard modules (incl. everything the evaluator's own imports expose) called
+           in 5 shapes, in transaction and view contexts: only the documented function tables may be callable.
 Each string is loaded and evaluated on the real code in up to 9 contexts (direct; match, let, field, tag,
 top-level variable, transform of a .rules file; view filter and view variable) under a monitor:
   (a) sys.addaudithook: evaluation raises NO audit event, parsing only `compile` of the text itself;
@@ -25,6 +27,9 @@ from mc.core import harness as H
 from mc.core import audit
 from mc.checks import rules_common as R
 from mc.ref import rulesfile as RF
+
+import warnings
+warnings.simplefilter("ignore", SyntaxWarning)     # corpus strings such as '1if' make the compiler chatty on stderr
 
 PROPERTY = "C03"
 LEVEL = "exploration"
@@ -169,10 +174,34 @@ def closure_corpus():
                 yield e, (a not in DOCUMENTED_ATTRS)
 
 
+VIEW_FUNCS = {"sum", "count", "avg", "max", "min", "stddev", "abs", "round", "by", "period", "max_val", "min_val"}
+TXN_FUNCS = {"contains", "regex", "normalized", "anyof", "startswith", "fuzzy", "abs", "round", "extract", "split", "substring", "trim", "regex_replace",
+             "uppercase", "lowercase", "strip_prefix", "strip_suffix", "exists", "len", "sum", "any", "all", "next", "min", "max"}
+
+
+def function_corpus():
+    """Every public name of builtins and of the modules the evaluator imports, called as a function (C03: closed function tables)."""
+    import builtins, statistics, re as _re, warnings as _w, datetime as _d, typing as _t, math, os, sys, operator, itertools as _it, collections, functools as _f
+    names = set()
+    for m in (builtins, statistics, _re, _w, _d, _t, math, os, sys, operator, _it, collections, _f, ast):
+        names.update(n for n in dir(m) if not n.startswith("_"))
+    names.update({"__import__", "__build_class__", "namedtuple", "itemgetter", "groupby", "repeat", "defaultdict", "bisect_left", "Fraction", "Decimal",
+                  "getattr", "setattr", "eval", "exec", "compile", "open", "input", "vars", "globals", "locals"})
+    out = []
+    for n in sorted(names):
+        low = n.lower()
+        for shape in ("{n}()", '{n}("p", "a b")', "{n}(1)", "{n}(payments)" , "{n}(description)"):
+            out.append((shape.replace("{n}", n), low))
+    return out
+
+
 CHUNK = 40
 
 
 def gen_cases(tier):
+    fc = function_corpus()
+    for i in range(0, len(fc), CHUNK):
+        yield {"corpus": "functions", "contexts": "functions", "items": [[e, low] for e, low in fc[i:i + CHUNK]]}
     for corpus, items, ctxs in (("node", node_corpus(), "all"), ("payload", payload_corpus(), "all" if tier == "thorough" else "direct+some"),
                                 ("closure", list(closure_corpus()), "all" if tier == "thorough" else "direct")):
         for i in range(0, len(items), CHUNK):
@@ -343,6 +372,8 @@ def run_view(expr, pos):
 
 
 def contexts_for(case_ctx, idx):
+    if case_ctx == "functions":
+        return ["direct", "match", "tag", "view-filter", "view-variable"]
     if case_ctx in FILE_POSITIONS or case_ctx in ("view-filter", "view-variable"):
         return [case_ctx]
     if case_ctx == "direct":
@@ -377,6 +408,14 @@ def check_case(case):
                 out, problems = run_file(expr, ctx)
             outcomes.add(f"{ctx}:{out}")
             sub = {"corpus": case["corpus"], "contexts": ctx, "items": [[expr, must_reject]]}
+            if case["corpus"] == "functions":
+                documented = VIEW_FUNCS if ctx.startswith("view") else TXN_FUNCS
+                for p in problems:
+                    kind = ("audit-event" if "audit events" in p else "state-modified" if "modified" in p else "crash" if "raised" in p else "interpreter-object-leaks")
+                    viol.append({"kind": kind, "detail": {"expression": expr, "context": ctx, "problem": p}, "case": sub})
+                if must_reject not in documented and out == "value":
+                    viol.append({"kind": "undocumented-function-callable", "detail": {"expression": expr, "context": ctx}, "case": sub})
+                continue
             for p in problems:
                 kind = ("audit-event" if "audit events" in p else "state-modified" if "modified" in p else
                         "crash" if "raised" in p else "interpreter-object-leaks")
